@@ -12,6 +12,8 @@ CONSTANTS
   Detector = FALSE
   RetryLimit = 5
   AtomicRemove = TRUE
+  RemoveByHash = FALSE
+  LockedRemove = FALSE
   Contents = {0,1}
   FinLag = 0
   NoIdle = FALSE
